@@ -78,5 +78,11 @@ CHECKS = {
   "text": "For constellations built by the real constructors (QPSK, PSK 4/8/16, QAM 4/16) the generic detector is symbolically executed on fully symbolic complex samples: on every path the returned index minimises the squared distance over the whole constellation, the output keeps the shape and element order of the input for 1-D, C-ordered, Fortran-ordered and transposed arrays, also after a phase-offset change following an earlier demodulation. modulate is the table lookup for symbolic indexes and raises ValueError for idx >= M; BPSK closed forms hold for every input; PSK symbols have unit energy for a symbolic phase offset. Round trip, distinct points, unit mean energy (PSK 2..2^10 x offsets, QAM 4..4^6) and rejection of every unsupported cardinality up to 4100 are decided by complete enumeration on the real code.",
   "note": "Ideal reals for the distance comparisons (sqrt strictly increasing); ties excluded; symbolic detection proved for M <= 16, larger orders by the bounded brute-force cross-check; negative indexes wrap (documented numpy behaviour).",
  },
+ "C19": {
+  "category": "other",
+  "technique": "contract-based deductive verification for rectangle/circle containment, circle border point and the random-point generators (exact polynomial identities modulo cos^2+sin^2=1 + z3); bounded run-time contract checks on dense grids for hexagons, generic border points, user placement and cluster layout",
+  "text": "Proved for ALL corners, rotations and query points: each edge half-plane of the rectangle's own vertices equals side length x signed distance of the un-rotated point (ring identity modulo c^2+s^2=1) and the real containment test is the sign test on those distances; circle containment is the open disc; the circle border point is pos + ratio*r*(cos,sin)(angle); random points in a circle/rectangle satisfy their bounds for every value of the uninterpreted draws. Hexagon containment (matplotlib Path), the generic nearest-two-vertices border-point construction, rejection-sampled users (incl. 3-sector cells after setter histories) and the ring-by-ring cluster placement are trigonometry with float tolerances behind an external library: they are bounded checks on rotation/radius/size grids, never counted as proved - hence 'other'. One known finding: border points of non-square rectangles.",
+  "note": "Ideal reals, cos/sin uninterpreted with Pythagoras, symmetry and the value at 0; matplotlib Path external; grids bounded as stated in the evidence.",
+ },
 }
 NOT_APPLICABLE = {}
